@@ -159,6 +159,27 @@ fn glob_expected(mode: Mode, pattern: &str, fp: &[char], ft: &[char]) -> Tri {
     }
 }
 
+/// The condition as a client receives it: serialized to JSON and parsed back.
+fn wire_cond(c: &PushCondition) -> Result<PushCondition, String> {
+    serde_json::to_value(c).and_then(serde_json::from_value).map_err(|e| e.to_string())
+}
+
+/// `cond` and its JSON round trip must give the same answer on the same event.
+fn wire_agrees(family: &str, cond: &PushCondition, ev: &FlattenedJson, ctx: &PushConditionRoomCtx, got: &Result<bool, Panicked>) -> Option<(String, String)> {
+    let Ok(g) = got else { return None };
+    match wire_cond(cond) {
+        Err(e) => Some((format!("wire/{family}/condition-does-not-round-trip"), format!("{cond:?}: {e}"))),
+        Ok(w) => match catch(|| w.applies(ev, ctx)) {
+            Err(p) => Some((panic_sig(&p, "wire-condition"), p.text)),
+            Ok(gw) if gw != *g => Some((
+                format!("wire/{family}/parsed-condition-disagrees"),
+                format!("{cond:?} applies={g}, after serialize+parse ({w:?}) applies={gw}"),
+            )),
+            Ok(_) => None,
+        },
+    }
+}
+
 /// run the real code for one (mode, pattern, text)
 fn glob_real(
     mode: Mode,
@@ -668,8 +689,13 @@ fn prop_eval(name_idx: usize, value: &Value, scalar: &RefScalar, contains: bool,
     let exp = pm::ref_cond(&rcond, &flat_ref, &rctx);
     let raw = raw_of(&event);
     t.transitions += 1;
-    let got = catch(|| cond.applies(&FlattenedJson::from_raw(&raw), &ctx));
+    let flat_real = FlattenedJson::from_raw(&raw);
+    let got = catch(|| cond.applies(&flat_real, &ctx));
     let family = if contains { "cond/event_property_contains" } else { "cond/event_property_is" };
+    t.transitions += 1;
+    if let Some(v) = wire_agrees(family, &cond, &flat_real, &ctx, &got) {
+        return vec![v];
+    }
     let vk = |v: &Value| match v {
         Value::Null => "null",
         Value::Bool(_) => "bool",
@@ -860,7 +886,13 @@ fn perm_eval(c: [usize; 6], t: &mut Tally) -> Vec<(String, String)> {
     let raw = raw_of(&event);
     t.transitions += 1;
     let label = format!("sender={sender:?} entry={:?} users_default={} notifications.room={} key={key} power_levels={}", PERM_ENTRY[ei], PERM_DEFAULT[di], PERM_ROOM[ri], has_power == 1);
-    match (exp, catch(|| cond.applies(&FlattenedJson::from_raw(&raw), &ctx))) {
+    let flat_real = FlattenedJson::from_raw(&raw);
+    let got = catch(|| cond.applies(&flat_real, &ctx));
+    t.transitions += 1;
+    if let Some(v) = wire_agrees("cond/sender_notification_permission", &cond, &flat_real, &ctx, &got) {
+        return vec![v];
+    }
+    match (exp, got) {
         (_, Err(p)) => vec![(panic_sig(&p, "sender_notification_permission"), format!("{label}: {}", p.text))],
         (Tri::Unspecified, Ok(_)) => {
             t.unspecified += 1;
@@ -1181,6 +1213,27 @@ fn select_check(
             .then(|| rs.get_actions(&env.events[ei], &env.ctx).iter().map(|a| a.sound().map(str::to_owned)).collect());
         (m, a)
     });
+    // the ruleset as a client receives it (serialized and parsed back) must select the same rule
+    if ctx_idx == 0 {
+        if let Ok((m, _)) = &got {
+            t.transitions += 1;
+            let wire: Result<Ruleset, String> =
+                serde_json::to_value(rs).and_then(serde_json::from_value).map_err(|e| e.to_string());
+            match wire {
+                Err(e) => return vec![("wire/select/ruleset-does-not-round-trip".into(), e)],
+                Ok(w) => match catch(|| w.get_match(&env.events[ei], &env.ctx).map(|r| (kind_of(&r), r.rule_id().to_owned()))) {
+                    Err(p) => return vec![(panic_sig(&p, "wire-ruleset"), p.text)],
+                    Ok(mw) if mw != *m => {
+                        return vec![(
+                            "wire/select/parsed-ruleset-disagrees".into(),
+                            format!("in-memory ruleset matches {m:?}, after serialize+parse it matches {mw:?}"),
+                        )]
+                    }
+                    Ok(_) => {}
+                },
+            }
+        }
+    }
     let kname = |k: Option<usize>| k.map(|k| pm::KINDS.get(k).copied().unwrap_or("?")).unwrap_or("none");
     let describe = || {
         let rules: Vec<String> = (0..5)
